@@ -1,61 +1,213 @@
 """C13 - transparent compression never changes what clients read back.
 
-spec/redis/Compress.tla: value classes by how the value compression behaves, number of compression layers of the
-stored bytes, config history (absent / switched off / enabled), filter passes per request (= 1 + redirections),
-one decompress hook per pass. TLC checks StoredForm, ReadBack, OnlyWhenEnabled exhaustively for the repaired filter
-and must find the double-compression counterexample for the pinned one.
-TLC-simulated histories (config switches, writes of every class with 0-2 redirections, reads with 0-2 redirections)
-are replayed through a real Redis processor with the real snappy compressor against simulated nodes that redirect
-on demand (MOVED with a real slot hand-over): nine write commands x six read commands, thresholds 1/32/100/512;
-oracle: bytes read back = bytes written; bytes stored at the node = original or header + one snappy stream that
-expands to the original and is shorter (decoded with the harness' own snappy). White box: compress/decompress of
-random values of all lengths and entropies; banned commands are rejected without backend traffic.
+Spec modules owned by this check: spec/redis/Compress.tla, CompressGen.tla, CompressPipe.tla, CompressPipeGen.tla
+(+ MC_Compress_*.cfg, Gen_Compress.cfg, Strata_Compress*.cfg, MC_CompressPipe_*.cfg, Gen_CompressPipe_*.cfg).
+
+spec/redis/Compress.tla: value classes by how the value compression behaves, one or several value positions per write
+request, number of compression layers of the stored bytes and whether they still are the bytes the filter produced
+(the compression works in a scratch buffer shared by the whole process), config history (absent / switched off /
+enabled), filter passes per request (= 1 + redirections), one decompress hook per pass reaching down to a nesting depth
+of the reply (bulk / flat array / nested array = HSCAN).  TLC checks StoredForm, ReadBack, OnlyWhenEnabled exhaustively
+for the code's constants and must find a counterexample for each broken variant: FixOnce = FALSE (compression per send),
+HookDepth = 1 (hooks do not descend into nested arrays), OwnBytes = FALSE (request keeps pointing into the scratch
+buffer); the windows the mandatory strata consist of must be reachable.
+spec/redis/CompressPipe.tla: the writer of a backend connection with its queue; a disabled command never reaches the
+backend, whatever is queued behind it (AfterStop = "queued-falls-through" must violate BannedRejectedLocally).
+
+Replayed on the real code, judged by the property's predicate (bytes read back = bytes written; bytes stored at the
+node = original or header + one snappy stream that expands to the original and is shorter, decoded with the harness' own
+snappy; disabled commands get the error and never show up in a node's command log):
+ * mandatory strata (Strata_Compress.cfg, enumerated completely by TLC every run): compression on, one write of every
+   shape (all class combinations of 1-2 value positions x 0-1 redirections x with/without other traffic while the
+   write is on its way), optionally compression switched off, one read of every shape (0-1 redirections x reply depth
+   0/1/2) - nine write commands + HMSET/HSET/MSET with several values, GET/GETSET/MGET/HGET/HMGET/HGETALL/HVALS/HSCAN;
+ * TLC-simulated histories (seeded; config switches, writes with 1-3 values and 0-2 redirections, reads);
+ * every CompressPipe behaviour (pipelines up to length 3, thorough 4, every interleaving of hand-over and take) forced
+   on the real writer through the hook points client.loopWrite.select / client.Send.enqueued, one or two sessions;
+ * concurrent writers with slots changing owner and compression switched off and on;
+ * white box: compress/decompress of random values of all lengths and entropies, break-even sweep, single disabled commands.
 """
+import concurrent.futures
 import os
 
 import kit
 
 LEVEL = "model_checking"
 
+def _parallel(jobs, width):
+    """Run independent jobs side by side; the first failure (in the order given) is raised."""
+    with concurrent.futures.ThreadPoolExecutor(max_workers=width) as ex:
+        futs = {name: ex.submit(fn) for name, fn in jobs.items()}
+        concurrent.futures.wait(list(futs.values()))
+    return {name: f.result() for name, f in futs.items()}
+
+
+def _emit(ctx, module, cfg, tag, **kw):
+    """Exhaustive run of a Gen module (history variable in the state: every behaviour is a distinct path) that must be
+    clean; returns the printed behaviours."""
+    r = ctx.mc("redis", module, cfg, workers=1, timeout=600, **kw)
+    return [p for (t, p) in r.prints if t == tag]
+
 
 def run(ctx):
-    ctx.build()
     ctx.assumptions += ["values that start with the compression header are excluded (as the statement says)",
-                        "value classes are concretised with real data and verified against the real value compression before use"]
-    ctx.mc("redis", "Compress", "MC_Compress_fixed.cfg", workers=4, timeout=600)
-    ctx.mc("redis", "Compress", "MC_Compress_pinned.cfg", workers=4, timeout=300, expect_violated=["StoredForm", "ReadBack"], count=False)
+                        "value classes are concretised with real data and verified against the real value compression before use",
+                        "HSCAN is answered by the simulated node with the reply shape of Redis ([cursor, [field, value, ...]]) built from the bytes it stores"]
     num = 300 if ctx.thorough else 40
-    g = ctx.tlc("redis", "CompressGen", "Gen_Compress.cfg", mode="sim", workers=1, sim_num=num, sim_depth=60, seed=ctx.seed,
-                deadlock=False, timeout=300)
-    behs = [p for (tag, p) in g.prints if tag == "BEH"]
-    if len(behs) < num // 2:
-        raise kit.Inconclusive("only %d histories emitted: %s" % (len(behs), g.error[:300]))
+    # ---- the model (independent TLC runs and the harness build side by side: the wall clock of the quick tier matters)
+    jobs = {
+        "build": lambda: ctx.build(),
+        "fixed": lambda: ctx.mc("redis", "Compress", "MC_Compress_fixed_deep.cfg" if ctx.thorough else "MC_Compress_fixed.cfg",
+                                workers=8 if ctx.thorough else 4, timeout=900),
+        "wide": lambda: ctx.mc("redis", "Compress", "MC_Compress_fixed_wide.cfg", workers=8, timeout=1800) if ctx.thorough else None,
+        "pinned": lambda: ctx.mc("redis", "Compress", "MC_Compress_pinned.cfg", workers=1, timeout=300, expect_violated=["StoredForm", "ReadBack"], count=False),
+        "flathook": lambda: ctx.mc("redis", "Compress", "MC_Compress_flathook.cfg", workers=1, timeout=300, expect_violated=["ReadBack"], count=False),
+        "scratch": lambda: ctx.mc("redis", "Compress", "MC_Compress_scratch.cfg", workers=1, timeout=300, expect_violated=["StoredForm"], count=False),
+        "w-nested": lambda: ctx.mc("redis", "Compress", "MC_Compress_window_nested.cfg", workers=1, timeout=300,
+                                   expect_violated=["NoNestedReadOfCompressed"], count=False),
+        "w-multi": lambda: ctx.mc("redis", "Compress", "MC_Compress_window_multi.cfg", workers=1, timeout=300,
+                                  expect_violated=["NoTwoCompressedInOneRequest"], count=False),
+        "pipe-broken": lambda: ctx.mc("redis", "CompressPipe", "MC_CompressPipe_broken.cfg", workers=1, timeout=300,
+                                      expect_violated=["BannedRejectedLocally"], count=False),
+        "pipe-window": lambda: ctx.mc("redis", "CompressPipe", "MC_CompressPipe_window.cfg", workers=1, timeout=300,
+                                      expect_violated=["NoBannedWithQueueBehind"], count=False),
+        "strata": lambda: _emit(ctx, "CompressGen", "Strata_Compress_deep.cfg" if ctx.thorough else "Strata_Compress.cfg", "BEH"),
+        "sim": lambda: ctx.tlc("redis", "CompressGen", "Gen_Compress.cfg", mode="sim", workers=1, sim_num=num, sim_depth=60, seed=ctx.seed,
+                               deadlock=False, timeout=300),
+        "pipes": lambda: _emit(ctx, "CompressPipeGen", "Gen_CompressPipe_4.cfg" if ctx.thorough else "Gen_CompressPipe_3.cfg", "PIPE"),
+    }
+    # the drivers need only the build and the emitted behaviours; the exhaustive runs are joined at the end
+    ex = concurrent.futures.ThreadPoolExecutor(max_workers=8)
+    order = ["build", "strata", "sim", "pipes"] + [k for k in jobs if k not in ("build", "strata", "sim", "pipes")]
+    futs = {name: ex.submit(jobs[name]) for name in order}
+    try:
+        _drivers(ctx, {k: futs[k].result() for k in ("build", "strata", "sim", "pipes")}, num)
+    finally:
+        concurrent.futures.wait(list(futs.values()))
+        ex.shutdown()
+    for name in order:
+        futs[name].result()   # raises kit.Inconclusive if a model run did not end as expected
+
+
+def _drivers(ctx, done, num):
+
+    # ---- histories: mandatory strata + seeded simulation
+    strata = done["strata"]
+    want = 9072 if ctx.thorough else 960   # writes (class sequences x redirections x traffic) x (switched off or not) x reads (redirections x depth)
+    if len(strata) != want:
+        raise kit.Inconclusive("expected %d strata, TLC emitted %d" % (want, len(strata)))
+    g = done["sim"]
+    sims = [p for (tag, p) in g.prints if tag == "BEH"]
+    if len(sims) < num // 2:
+        raise kit.Inconclusive("only %d histories emitted: %s" % (len(sims), g.error[:300]))
+    behs = strata + sims
     bfile = os.path.join(ctx.work, "histories.ndjson")
     kit.write_ndjson(bfile, behs)
     rfile = os.path.join(ctx.work, "replay.ndjson")
-    ctx.harness(["c13-replay", "-in", bfile, "-out", rfile], timeout=3000)
-    results = kit.read_ndjson(rfile)
+    pipes = done["pipes"]
+    if len(pipes) < 300:
+        raise kit.Inconclusive("only %d pipeline behaviours emitted" % len(pipes))
+    pfile = os.path.join(ctx.work, "pipes.ndjson")
+    kit.write_ndjson(pfile, pipes)
+    prfile = os.path.join(ctx.work, "pipes-result.ndjson")
+    cfile = os.path.join(ctx.work, "concurrent.ndjson")
+    vfile = os.path.join(ctx.work, "values.ndjson")
+    # the drivers are separate processes (a processor that panics takes only its own driver along); side by side
+    ran = _parallel({
+        "replay": lambda: ctx.harness(["c13-replay", "-in", bfile, "-out", rfile, "-workers", "4"], timeout=1500, allow_fail=True),
+        "pipeline": lambda: ctx.harness(["c13-pipeline", "-in", pfile, "-out", prfile], timeout=1500, allow_fail=True),
+        "concurrent": lambda: ctx.harness(["c13-concurrent", "-out", cfile, "-clients", "8", "-ops", "1500" if ctx.thorough else "150"],
+                                          timeout=1500, allow_fail=True),
+        "values": lambda: ctx.harness(["c13-values", "-out", vfile, "-n", "20000" if ctx.thorough else "2000"], timeout=900, allow_fail=True),
+    }, 4)
+    rc, _, se = ran["replay"]
+    results = {r["id"]: r for r in kit.read_ndjson(rfile)} if os.path.exists(rfile) else {}
     good = 0
-    for res, beh in zip(results, behs):
+    tot = {"nested": 0, "multi": 0, "traffic": 0, "packed": 0}
+    for i, beh in enumerate(behs):
+        res = results.get(i + 1)
+        if res is None:
+            continue
+        for b in res.get("bad") or []:
+            ctx.violation(b["sig"], b["what"], {"history": beh, "result": res})
         if res.get("err"):
             ctx.notes.append("replay %d: %s" % (res["id"], res["err"]))
             continue
         good += 1
-        ctx.case(key=[(s["a"], s["c"], s["k"], s["cls"], s["r"]) for s in beh],
-                 nontrivial=any(s["a"] == "write" and s["r"] > 0 for s in beh), n=res["writes"] + res["reads"])
-        for b in res.get("bad") or []:
-            ctx.violation(b["sig"], b["what"], {"history": beh, "result": res})
+        for k in tot:
+            tot[k] += res.get(k, 0)
+        ctx.case(key=[(s["a"], s["c"], s["k"], tuple(s["vals"]), s["r"], s["busy"], s["d"]) for s in beh],
+                 nontrivial=res.get("packed", 0) > 0, n=res["writes"] + res["reads"])
         if not res.get("bad"):
             ctx.cov["traces_validated_against_impl"] += 1
-    if good < len(behs) * 0.8:
-        raise kit.Inconclusive("replay driver unhealthy: %d of %d" % (good, len(behs)))
-    ctx.sample({"history": behs[0], "result": results[0]})
-    vfile = os.path.join(ctx.work, "values.ndjson")
-    ctx.harness(["c13-values", "-out", vfile, "-n", "20000" if ctx.thorough else "2000"], timeout=900)
-    for r in kit.read_ndjson(vfile):
+    _stands_or_inconclusive(ctx, rc, se, "c13-replay", good >= len(behs) * 0.8, "%d of %d histories replayed" % (good, len(behs)))
+    if not ctx.violations and (tot["nested"] < 50 or tot["multi"] < 20 or tot["traffic"] < 100):
+        raise kit.Inconclusive("mandatory strata not exercised: %s" % tot)
+    ctx.notes.append("histories: %d strata + %d simulated; values stored compressed %d, of which read back in nested replies %d; requests with >= 2 "
+                     "compressed values %d; background values during writes %d" % (len(strata), len(sims), tot["packed"], tot["nested"], tot["multi"], tot["traffic"]))
+    if results.get(1):
+        ctx.sample({"history": behs[0], "result": results[1]})
+
+    # ---- disabled commands in pipelines: every behaviour of CompressPipe forced on the real writer
+    rc, _, se = ran["pipeline"]
+    seen, forced, window = set(), 0, 0
+    for r in (kit.read_ndjson(prfile) if os.path.exists(prfile) else []):
+        for b in r.get("bad") or []:
+            ctx.violation(b["sig"], b["what"], r)
+        if r.get("err"):
+            ctx.notes.append("pipeline %d: %s" % (r["id"], r["err"]))
+            continue
+        if r["phase"] == "replies":
+            seen.add(r["id"])
+            beh = r["beh"]
+            forced += 1 if r.get("forced") else 0
+            window += 1 if beh["enabled"] and beh["window"] > 0 else 0
+            ctx.case(key=["pipe", beh["enabled"], beh["items"], beh["sched"]], nontrivial=beh["window"] > 0, n=len(beh["items"]))
+            if not r.get("bad") and r.get("forced"):
+                ctx.cov["traces_validated_against_impl"] += 1
+                # spec -> code: exactly the requests of `wire` reached the node, in that order
+                want = [r["cmds"][i - 1].split(" ")[0].lower() for i in beh["wire"]]
+                if want != (r["backend"] or []):
+                    ctx.notes.append("pipeline %d: backend saw %s, model says %s" % (r["id"], r["backend"], want))
+    _stands_or_inconclusive(ctx, rc, se, "c13-pipeline", len(seen) >= len(pipes) * 0.9 and forced >= len(seen) * 0.9,
+                            "%d of %d pipelines replayed, %d forced" % (len(seen), len(pipes), forced))
+    if not ctx.violations and window < 50:
+        raise kit.Inconclusive("window 'disabled command with requests queued behind' forced only %d times" % window)
+    ctx.notes.append("pipelines: %d behaviours forced on the real writer, %d with a disabled command taken while requests were queued behind it" % (forced, window))
+
+    # ---- concurrent writers
+    rc, _, se = ran["concurrent"]
+    cres = kit.read_ndjson(cfile) if os.path.exists(cfile) else []
+    for r in cres:
+        ctx.case(key=["concurrent", r["case"]], nontrivial=True, n=r["values"])
+        for b in r.get("bad") or []:
+            if b["sig"] == "read-failed":
+                ctx.notes.append("concurrent: " + b["what"])
+                continue
+            ctx.violation(b["sig"], b["what"], r)
+    _stands_or_inconclusive(ctx, rc, se, "c13-concurrent", bool(cres) and cres[0]["writes"] > 500 and cres[0]["packed"] > 100,
+                            "concurrent writers: %s" % (cres[:1],))
+
+    # ---- white box
+    rc, _, se = ran["values"]
+    vres = kit.read_ndjson(vfile) if os.path.exists(vfile) else []
+    _stands_or_inconclusive(ctx, rc, se, "c13-values", len(vres) >= 9, "%d records" % len(vres))
+    for r in vres:
         ctx.case(key=["value", r["case"]], nontrivial=True)
         if not r["ok"]:
             sig = "banned-not-rejected/" + r["case"].split(" ")[-1].lower() if r["case"].startswith("banned") else "value-codec"
             ctx.violation(sig, "%s: %s" % (r["case"], r.get("why")), r)
-    ctx.cov["rule"] = ("histories = TLC simulation of CompressGen (seeded), distinct by event sequence, non-trivial = contains a redirected write; "
-                       "each write/read is one evaluation; plus random value round trips and banned commands")
+    ctx.cov["rule"] = ("histories = the strata enumerated by TLC (Strata_Compress.cfg: 960, thorough Strata_Compress_deep.cfg: 9072) + TLC simulation of CompressGen (seeded), distinct by event sequence, "
+                       "non-trivial = a value reached the backend compressed; each write/read is one evaluation; pipelines = every behaviour of CompressPipeGen, "
+                       "non-trivial = a disabled command taken with requests queued behind it; plus concurrent writers, random value round trips and single disabled commands")
+
+
+def _stands_or_inconclusive(ctx, rc, stderr, what, healthy, detail):
+    """A driver that died or fell behind is infrastructure trouble - unless violations were recorded before: they stand."""
+    if rc == 0 and healthy:
+        return
+    msg = "%s unhealthy (exit %d): %s %s" % (what, rc, detail, (stderr or "")[-600:].replace("\n", " | "))
+    if ctx.violations or ctx.known_hits:
+        ctx.notes.append(msg)
+        return
+    raise kit.Inconclusive(msg)
